@@ -17,6 +17,7 @@ import (
 	"encoding/binary"
 	"encoding/json"
 	"fmt"
+	"os"
 	"reflect"
 	"sort"
 	"strings"
@@ -138,6 +139,10 @@ func newKAWorldRig(rig string) *kaWorld {
 // connection in PLAY, i.e. before JoinGame; config handler: CONFIG). A connection in LOGIN has no handler that
 // accepts keep-alives; the pending entry is planted directly (keeps the wrong-state check non-vacuous).
 func (w *kaWorld) send(i int, id int64) {
+	if kaSkipNew {
+		w.sendDirect(i, id)
+		return
+	}
 	kb := w.b[i]
 	kb.sends[id]++
 	ka := &packet.KeepAlive{RandomID: id}
@@ -233,6 +238,10 @@ func kaOps(thorough bool) []kaOp {
 }
 
 var stByName = map[string]*state.Registry{"login": state.Login, "config": state.Config, "play": state.Play}
+
+// kaSkipNew (mutant bookkeeping only): run the check as it was before the config/join rigs and the real backend
+// handlers were added, to show that a mutant is caught by the added dimensions alone.
+var kaSkipNew = os.Getenv("VERIF_SKIP_NEW") != ""
 
 // kaVia counts, per process, which real backend handler received the harness's keep-alives (evidence only).
 var kaVia = map[string]int{}
@@ -497,7 +506,12 @@ func TestVerif(t *testing.T) {
 			depth = 8
 		}
 		outcomes := map[string]bool{}
-		for _, rig := range []string{"play", "config", "join"} {
+		rigs := []string{"play", "config", "join"}
+		if kaSkipNew {
+			rigs = rigs[:1]
+			r.NotExhaustive("VERIF_SKIP_NEW set")
+		}
+		for _, rig := range rigs {
 			ops := kaOps(r.Thorough())
 			if rig == "join" {
 				// no current server: backend A does not exist for the player
@@ -554,6 +568,16 @@ func TestVerif(t *testing.T) {
 			r.ClassN("backend-keep-alive-via:"+k, n)
 		}
 		r.Extra("bfs_distinct_outcomes", len(outcomes))
-		schedrun.Run(r, kaScenarios())
+		scs := kaScenarios()
+		if kaSkipNew {
+			var old []schedrun.Scenario
+			for _, sc := range scs {
+				if sc.Name != "join-replies-vs-promotion" && sc.Name != "reply-vs-resend-through-play-handler" {
+					old = append(old, sc)
+				}
+			}
+			scs = old
+		}
+		schedrun.Run(r, scs)
 	})
 }
